@@ -8,7 +8,7 @@ Field generators and the field dump live in vp/pdugen_c01.py.  See DESIGN.md §4
 """
 from __future__ import annotations
 
-from bitarray import bitarray
+from bitarray import bitarray, frozenbitarray
 
 from vp import pdugen_c01 as G
 from vp.core import Ctx, Fail, SubCheck, Tally, call, digest
@@ -35,7 +35,9 @@ RULE = (
     "reversals, in-octet bit and nibble swaps, dibit swap, rotations, complement and complements of all of these; the "
     "images that are themselves valid EMB centres are listed in the evidence).  reuse: a case is two such data-burst states (second state: any non-empty subset of {payload, colour code, sync} changed; "
     "a changed payload is new field values, another variant of the same PDU class or another class / data type) carried "
-    "one after the other by the same Burst object.  Distinct by hash of the complete case.  Non-trivial: data bursts "
+    "one after the other by the same Burst object.  batch: 2-4 seeded data / voice bursts (40 % all of one variant, else "
+    "mixed classes) that are all built and parsed before any is serialised, with 0-2 arbitrary 'noise' bursts parsed in "
+    "between, then serialised in a shuffled order and its reverse.  Distinct by hash of the complete case.  Non-trivial: data bursts "
     "whose PDU bits are not all zero; voice bursts whose 216 vocoder bits are neither all zero nor all one; reuse cases whose two states serialise to different bytes."
 )
 ASSUMPTIONS = [
@@ -68,6 +70,10 @@ ASSUMPTIONS = [
     "(obj.__dict__.clear(); obj.__dict__.update(fresh.__dict__)) is indistinguishable from a fresh object for the library's "
     "plain Python classes (skipped for __slots__ classes and self-referencing objects); no attribute of a PDU is poked "
     "individually, so derived fields (CRC, parity) are always the ones the library computed for the new state",
+    "representation variants (container of the same 264 bits): Burst.from_bits is additionally fed a big-endian "
+    "frozenbitarray (data and voice); little-endian bitarrays are NOT in the domain: the unchanged tree resolves the sync "
+    "through tobytes() and the PDU fields through ba2int(), both of which read the container's endianness flag (a "
+    "little-endian copy of a valid burst is mis-parsed or rejected on /repo), and no caller in the library builds one",
     "GPS coordinates are multiples of the wire resolution; other floats cannot survive a 25/24-bit field and are not "
     "'in-range field values'",
 ]
@@ -190,7 +196,7 @@ def _repeat_after_scribble(fn, what: str):
     return saved
 
 
-def _check_serialised(kind, variant, f, cc, sync, pdu, raw: bytes):
+def _check_serialised(kind, variant, f, cc, sync, pdu, raw: bytes, containers: bool = True):
     """every clause of the statement's first sentence for one serialisation `raw` of (pdu, cc, sync): independent layout
     reference, parse back (data type, colour code, sync, payload fields), re-assembly."""
     Burst, BurstTypes, DataTypes, SyncPatterns, SlotType = _lib()
@@ -253,6 +259,22 @@ def _check_serialised(kind, variant, f, cc, sync, pdu, raw: bytes):
     st, raw2 = call(p.as_bytes)
     if bytes(raw2) != raw:
         raise Fail("reassembled_bytes_identical", _diffpos(_from_bytes(bytes(raw2)), bits), "no difference", klass=kind)
+
+    # representation variant of the same 264 bits: Burst.from_bits on an immutable big-endian frozenbitarray (the container
+    # variant the unchanged tree parses correctly; little-endian containers are outside the domain, see ASSUMPTIONS)
+    if containers:
+        st, pf = call(Burst.from_bits, frozenbitarray(bits), BurstTypes.DataAndControl)
+        st, rawf = call(pf.as_bytes)
+        if bytes(rawf) != raw:
+            raise Fail("container_parse_reassembles_identically", _diffpos(_from_bytes(bytes(rawf)), bits), "no difference", klass="frozen_big:" + kind)
+        fp = pf.data
+        if kind in ("rate12", "rate34", "rate1") and fp is not None:
+            st, fp = call(fp.convert, G.rate_type(kind, variant))
+        if not isinstance(fp, G.expected_class(kind)):
+            raise Fail("parsed_payload_class", type(fp).__name__, G.expected_class_name(kind), klass="frozen_big")
+        d2, _notes = G.compare_payload_fields(kind, variant, f, pdu, fp)
+        if d2:
+            raise Fail("parsed_payload_fields_equal", d2[:6], "parsed == assembled (field by field)", klass=f"frozen_big:{kind}:{variant}")
     return p
 
 
@@ -345,8 +367,8 @@ def oracle_reuse(case):
     pdu2, bytes2 = fresh(s2)
     _SIDE["nonzero"] = bytes1 != bytes2
     # the fresh serialisations are what data_grid judges; judge them here too so that "equal to fresh" means "right"
-    _check_serialised(*s1, pdu1, bytes1)
-    _check_serialised(*s2, pdu2, bytes2)
+    _check_serialised(*s1, pdu1, bytes1, containers=False)
+    _check_serialised(*s2, pdu2, bytes2, containers=False)
     if fresh(s1)[1] != bytes1:
         raise Fail("fresh_assembly_repeatable", "two fresh assemblies of the same case differ", "equal bytes")
 
@@ -409,6 +431,142 @@ def oracle_reuse(case):
         raise Fail("parsed_bursts_independent", "second parsed burst does not serialise to its own bytes", bytes2.hex(), klass="second")
     if _as_33_bytes(x) != bytes1:
         raise Fail("parsed_bursts_independent", "first parsed burst changed after a second one was parsed", bytes1.hex(), klass="first")
+
+
+def _voice_bits_of(case):
+    """264 bits of a voice case (same construction as oracle_voice)"""
+    voice = _ba(gf2.int_to_bits(int(case["voice"], 16), 216))
+    if case["center"] == "sync":
+        center = _ba(gf2.int_to_bits(VOICE_SYNCS[case["sync"]], 48))
+    else:
+        emb = _ba(gf2.ref_encode("qr_16_7_6", gf2.int_to_bits(case["cc"], 4) + [case["pi"]] + gf2.int_to_bits(case["lcss"], 2)))
+        center = emb[:8] + _ba(gf2.int_to_bits(int(case["emb_bits"], 16), 32)) + emb[8:]
+    return voice[:108] + center + voice[108:]
+
+
+def oracle_batch(case):
+    """Interleaved two-phase batch.  case = {items: [data case | voice case, ...], order: permutation, noise: [hex33, ...]}.
+    Solo: every item is assembled / parsed on its own (and judged with data_grid's clauses).  Batch, phase 1: ALL items are
+    built (assembled bursts, not yet serialised) and ALL their byte strings are parsed into Burst objects; in between, the
+    `noise` byte strings (arbitrary 33 octets: reserved data types, unlisted enum values, broken FEC) are parsed and, when
+    that works, serialised and repr-ed - whatever they do is ignored.  Phase 2: the objects are serialised in ANOTHER order,
+    twice: every result must equal the solo result, every parsed payload must still carry its own generated fields."""
+    Burst, BurstTypes, DataTypes, SyncPatterns, SlotType = _lib()
+    items, order = case["items"], case["order"]
+    solo = []
+    for it in items:
+        if "kind" in it:
+            dt, sp = DataTypes[G.DATA_TYPE_OF_KIND[it["kind"]]], SyncPatterns[it["sync"]]
+            st, pdu = call(G.build, it["kind"], it["variant"], it["f"])
+            st, b = call(_new_burst, pdu, it["cc"], dt, sp)
+            raw = _as_33_bytes(b)
+            _check_serialised(it["kind"], it["variant"], it["f"], it["cc"], it["sync"], pdu, raw, containers=False)
+            solo.append(raw)
+        else:
+            solo.append(_voice_bits_of(it).tobytes())
+    _SIDE["nonzero"] = len(set(solo)) > 1
+
+    def noise():
+        for hx in case.get("noise", []):
+            for bt in (BurstTypes.DataAndControl, BurstTypes.Vocoder):
+                try:
+                    x = Burst.from_bytes(bytes.fromhex(hx), bt)
+                    x.as_bytes()
+                    repr(x)
+                except Exception:
+                    pass  # arbitrary octets may be rejected in any way; only their after-effects matter
+
+    # phase 1
+    assembled, pdus, parsed = [], [], []
+    for it, raw in zip(items, solo):
+        if "kind" in it:
+            dt, sp = DataTypes[G.DATA_TYPE_OF_KIND[it["kind"]]], SyncPatterns[it["sync"]]
+            st, pdu = call(G.build, it["kind"], it["variant"], it["f"])
+            st, b = call(_new_burst, pdu, it["cc"], dt, sp)
+            pdus.append(pdu)
+            assembled.append(b)
+            noise()
+            parsed.append(call(Burst.from_bytes, raw)[1])
+        else:
+            pdus.append(None)
+            assembled.append(None)
+            parsed.append(call(Burst.from_bytes, raw, BurstTypes.Vocoder)[1])
+    noise()
+    # phase 2: another order, then the reverse of it
+    for rnd, seq in enumerate((order, order[::-1])):
+        for j in seq:
+            it, raw = items[j], solo[j]
+            if assembled[j] is not None and _as_33_bytes(assembled[j]) != raw:
+                raise Fail("batch_result_equals_solo_result", {"item": j, "object": "assembled", "round": rnd}, "solo bytes", klass="assembled")
+            if _as_33_bytes(parsed[j]) != raw:
+                raise Fail("batch_result_equals_solo_result", {"item": j, "object": "parsed", "round": rnd}, "solo bytes", klass="parsed:" + ("data" if "kind" in it else "voice"))
+            if "kind" in it:
+                pp = parsed[j].data
+                if it["kind"] in _RATE_KINDS and pp is not None:
+                    st, pp = call(pp.convert, G.rate_type(it["kind"], it["variant"]))
+                if not isinstance(pp, G.expected_class(it["kind"])):
+                    raise Fail("batch_result_equals_solo_result", type(pp).__name__, G.expected_class_name(it["kind"]), klass="payload class")
+                d, _n = G.compare_payload_fields(it["kind"], it["variant"], it["f"], pdus[j], pp)
+                if d:
+                    raise Fail("batch_result_equals_solo_result", d[:6], "the item's own generated fields", klass=f"fields:{it['kind']}")
+            elif it["center"] == "emb" and gf2.bits_to_int(_voice_bits_of(it)[108:156].tolist()) not in _ALL_SYNC_VALUES:
+                e = parsed[j].emb
+                got = None if e is None else [_intval(e.colour_code), _intval(e.preemption_and_power_control_indicator), _intval(e.link_control_start_stop)]
+                if got != [it["cc"], it["pi"], it["lcss"]]:
+                    raise Fail("batch_result_equals_solo_result", got, [it["cc"], it["pi"], it["lcss"]], klass="emb fields")
+
+
+def _batch_case(rng):
+    n = rng.choice([2, 2, 3, 3, 4])
+    same_variant = rng.random() < 0.4
+    base = rng.choice(G.VARIANTS)
+    items = []
+    for _ in range(n):
+        r = rng.random()
+        if r < 0.25 and not same_variant:
+            if rng.random() < 0.7:
+                m = rng.randrange(128)
+                items.append({"center": "emb", "cc": m >> 3, "pi": (m >> 2) & 1, "lcss": m & 3, "emb_bits": "%08x" % rng.getrandbits(32), "voice": _voice_payload(rng)})
+            else:
+                items.append({"center": "sync", "sync": rng.choice(VOICE_SYNC_NAMES), "voice": _voice_payload(rng)})
+        else:
+            kind, variant = base if same_variant else rng.choice(G.VARIANTS)
+            items.append({"kind": kind, "variant": variant, "f": G.rng_fields(rng, kind, variant), "cc": rng.randrange(16), "sync": rng.choice(SYNC_NAMES)})
+    order = list(range(n))
+    while order == list(range(n)):
+        rng.shuffle(order)
+    noise = []
+    for _ in range(rng.choice([0, 1, 1, 2])):
+        r = rng.random()
+        if r < 0.5:
+            noise.append(bytes(rng.getrandbits(8) for _ in range(33)).hex())
+        else:  # a real data burst layout with a reserved / unsupported data type nibble and arbitrary payload
+            bits = [rng.getrandbits(1) for _ in range(264)]
+            bits[108:156] = gf2.int_to_bits(rng.choice(list(DATA_SYNCS.values())), 48)
+            slot = gf2.ref_encode("golay_20_8_7", gf2.int_to_bits(rng.randrange(16), 4) + gf2.int_to_bits(rng.choice([4, 5, 9, 11, 12, 13, 14, 15]), 4))
+            bits[98:108], bits[156:166] = slot[:10], slot[10:]
+            noise.append(_ba(bits).tobytes().hex())
+    return {"items": items, "order": order, "noise": noise}
+
+
+def drv_batch(ctx: Ctx, sub: SubCheck):
+    _preimport()
+    n = ctx.pick(400, 6000)
+
+    def work(chunk, t: Tally):
+        for j in chunk:
+            c = _batch_case(ctx.rng("batch", j))
+            _SIDE.clear()
+            ctx.run_case(sub.name, oracle_batch, c, t)
+            kinds = sorted({G.expected_class_name(it["kind"]) if "kind" in it else "voice" for it in c["items"]})
+            t.case(sub.name, key=None, nontrivial=False, cls="items=%d:noise=%d" % (len(c["items"]), len(c["noise"])))
+            t.cls(sub.name, "one_class" if len(kinds) == 1 else "mixed_classes")
+            if _SIDE.get("nonzero", True):
+                t.nt_hashes.add(digest([sub.name, c]))
+            if j < 3:
+                t.sample(sub.name, c)
+
+    ctx.shards(work, [list(range(n))[i::64] for i in range(64)])
 
 
 def _reuse_case(rng, kind, variant):
@@ -603,10 +761,12 @@ def oracle_voice(case):
     assert len(bits) == 264
     _SIDE["nonzero"] = voice.any() and not voice.all()
 
-    for how in ("from_bits", "from_bytes"):
+    for how in ("from_bits", "from_bytes", "from_bits_frozen"):
         arg = bits.copy()
         if how == "from_bits":
             st, b = call(Burst.from_bits, arg, BurstTypes.Vocoder)
+        elif how == "from_bits_frozen":
+            st, b = call(Burst.from_bits, frozenbitarray(bits), BurstTypes.Vocoder)
         else:
             st, b = call(Burst.from_bytes, arg.tobytes(), BurstTypes.Vocoder)
         st, out = call(b.as_bits)
@@ -888,6 +1048,7 @@ SUBCHECKS = [
     SubCheck("data_boundary", oracle_data, drv_data_boundary, "deterministic boundary pass: every field of every variant at each extreme value (0, 1, max-1, max, top bit; every enum member; all-00 / all-FF / single-octet / alternating payloads) one at a time, all-min / all-max, check fields 0 / all-ones / computed"),
     SubCheck("data_random", oracle_data, drv_data_random, "Hypothesis-drawn (variant, fields, colour code, sync): same oracle"),
     SubCheck("reuse", oracle_reuse, drv_reuse, "stale state on reused objects: one Burst (assembled or parsed) carries state 1, is serialised (as_bytes/as_bits/repr/debug), is re-targeted to state 2 (payload replaced or rewritten in place, slot type, sync) and back: every serialisation equals a freshly assembled burst"),
+    SubCheck("batch", oracle_batch, drv_batch, "interleaved two-phase batches: 2-4 data / voice bursts are all built and parsed first (with arbitrary 'noise' bursts parsed in between), then serialised in another order, twice: every result equals the solo result"),
     SubCheck("voice_grid", oracle_voice, drv_voice_grid, "all 128 (cc, PI, LCSS) EMB codewords and the 4 voice syncs x random vocoder/embedded bits: parse-then-serialise is the identity"),
     SubCheck("voice_boundary", oracle_voice, drv_voice_boundary, "every EMB value x {all-zero, all-ones, alternating} vocoder bits x {all-zero, all-ones, alternating} embedded bits; every voice sync x the vocoder patterns (complete)"),
     SubCheck("voice_near_sync", oracle_voice, drv_voice_near_sync, "voice bursts whose valid-EMB centre is at minimal Hamming distance from a SYNC pattern: 10 SYNC words x 128 EMB codewords with the SYNC word's own middle bits as embedded bits, and 1-2 embedded bits flipped"),
